@@ -111,9 +111,19 @@ def parseHReq (s : String) : Option HReq :=
 def natAfter (pfx : String) (s : String) : Option Nat :=
   if pfx.toList.isPrefixOf s.toList then (String.ofList (s.toList.drop pfx.length)).toNat? else none
 
+/-- `gen=N`: N requests built by rule (harness/cmd/c10 `genReqs`): request j has the tag `r<j>`, the path
+`/s<j mod 97>/t<j mod 89>/u<j>` and is answered 200 -/
+def genReqs (n : Nat) : List HReq :=
+  (List.range n).map fun i =>
+    let j := i + 1
+    { tag := s!"r{j}", path := s!"/s{j % 97}/t{j % 89}/u{j}", script := "s200.bx1", truth := "r200" }
+
 def handleHttp (kv : List (String × String)) (impl : String) : String × String :=
   let cfg : AutoTagCfg := { enabled := getS kv "auto" == "1", uriElements := (getN? kv "el").getD 0, noTagOnly := getS kv "nto" == "1" }
-  match (splitList (getS kv "reqs") ";").mapM parseHReq with
+  let parsedReqs : Option (List HReq) := match getN? kv "gen" with
+    | some n => some (genReqs n)
+    | none => (splitList (getS kv "reqs") ";").mapM parseHReq
+  match parsedReqs with
   | none => ("-", "fail:driver:unparsable reqs")
   | some reqs =>
     let ikv := parseKV impl
@@ -243,26 +253,25 @@ def grpcOutcome (kind : String) (code : Nat) : Option GrpcOutcome :=
   | "marshal" => some .marshalErr
   | _ => none
 
-def codeOf : GrpcOutcome → Option Nat
-  | .invoked c => some c
-  | _ => none
-
 def handleGrpc (kv : List (String × String)) (impl : String) : String × String :=
   let parsed := (splitList (getS kv "reqs") ";").mapM fun r =>
     match r.splitOn "," with
-    | [tag, kind, code] => do pure (tag, ← grpcOutcome kind (← code.toNat?))
+    | [tag, kind, code] =>
+      if kind == "gone" then some (tag, GrpcOutcome.invoked 0, true)
+      else do pure (tag, ← grpcOutcome kind (← code.toNat?), false)
     | _ => none
   match parsed with
   | none => ("-", "fail:driver:unparsable reqs")
-  | some reqs =>
-    let line := reqs.flatMap fun (tag, o) => (shootGrpc tag o).reports.map fun s => fmtSample false s "nil"
+  | some reqs3 =>
+    let line := (runGrpcGone false reqs3).map fun s => fmtSample false s "nil"
+    let reqs := effectiveOutcomes false reqs3
     let ikv := parseKV impl
     match parseSamples false (getS ikv "s") with
     | none => (fmtLine "ok" line, s!"fail:crash:unparsable observation {impl.take 120}")
     | some obs =>
       let res := getS ikv "res"
       let v := if res != "ok" then s!"fail:run:{res}"
-               else Spec.C10.judgeGrpc (reqs.map fun (tag, o) => (tag, codeOf o)) (obs.map ObsS.toObs)
+               else Spec.C10.judgeGrpc (reqs.map fun (tag, o) => (tag, grpcTruth o)) (obs.map ObsS.toObs)
       (fmtLine "ok" line, v)
 
 def handleGrpcDirect (kv : List (String × String)) (impl : String) : String × String :=
@@ -272,35 +281,50 @@ def handleGrpcDirect (kv : List (String × String)) (impl : String) : String × 
     let ikv := parseKV impl
     match parseSamples false (getS ikv "s") with
     | none => (fmtLine "ok" line, s!"fail:crash:unparsable observation {impl.take 120}")
-    | some obs => (fmtLine "ok" line, Spec.C10.judgeGrpc [(tag, codeOf o)] (obs.map ObsS.toObs))
+    | some obs => (fmtLine "ok" line, Spec.C10.judgeGrpc [(tag, grpcTruth o)] (obs.map ObsS.toObs))
   | _, _ => ("-", "fail:driver:unparsable input")
 
 structure GCall where
   tag : String
-  outcome : GrpcStepOutcome
+  kind : String
+  code : Nat
+  pp : String
 
 def parseGCall (s : String) : Option GCall :=
   match s.splitOn "," with
   | [_name, tag, kind, code, pp] => do
     let c ← code.toNat?
-    let o : GrpcStepOutcome ← match kind with
-      | "ok" => some (.invoked 0 (postOfAssert pp (grpcToHttp 0)))
-      | "code" => some (.invoked c (postOfAssert pp (grpcToHttp c)))
-      | "nomethod" => some .unknownMethod
-      | "badpayload" => some .badPayload
-      | "tpl" => some .prepErr
-      | _ => none
-    pure { tag := tag, outcome := o }
+    if ["ok", "code", "gone", "nomethod", "badpayload", "tpl"].contains kind then
+      pure { tag := tag, kind := kind, code := c, pp := pp }
+    else none
   | _ => none
 
-/-- spec side: the calls one shot executes (a call that was made and accepted lets the scenario go on) -/
-def executedCalls (scn : String) : List GCall → List (String × Option Nat)
-  | [] => []
-  | c :: rest =>
-    match c.outcome with
-    | .invoked code .ok => (scn ++ "." ++ c.tag, some code) :: executedCalls scn rest
-    | .invoked code _ => [(scn ++ "." ++ c.tag, some code)]
-    | _ => [(scn ++ "." ++ c.tag, none)]
+/-- outcome of one call, given whether the target is already gone; second component: the target is gone afterwards -/
+def callOutcome (gone : Bool) (c : GCall) : GrpcStepOutcome × Bool :=
+  let invoked (code : Nat) (gone' : Bool) : GrpcStepOutcome × Bool :=
+    let code' := if gone' then 14 else code
+    (.invoked code' (postOfAssert c.pp (grpcToHttp code')), gone')
+  match c.kind with
+  | "ok" => invoked 0 gone
+  | "code" => invoked c.code gone
+  | "gone" => invoked 0 true
+  | "nomethod" => (.unknownMethod, gone)
+  | "badpayload" => (.badPayload, gone)
+  | _ => (.prepErr, gone)
+
+/-- the calls one shot EXECUTES (a call that was made and accepted lets the scenario go on), with their outcomes -/
+def shotSteps : Bool → List GCall → List GrpcStep × Bool
+  | gone, [] => ([], gone)
+  | gone, c :: rest =>
+    let (o, gone') := callOutcome gone c
+    match o with
+    | .invoked _ .ok => let (more, g) := shotSteps gone' rest; ({ tag := c.tag, outcome := o } :: more, g)
+    | _ => ([{ tag := c.tag, outcome := o }], gone')
+
+/-- `n` shots of the same scenario; the target may go away during one of them -/
+def allShots (calls : List GCall) : Nat → Bool → List (List GrpcStep)
+  | 0, _ => []
+  | n + 1, gone => let (steps, g) := shotSteps gone calls; steps :: allShots calls n g
 
 def handleGrpcScn (kv : List (String × String)) (impl : String) : String × String :=
   match (splitList (getS kv "calls") ";").mapM parseGCall with
@@ -308,16 +332,16 @@ def handleGrpcScn (kv : List (String × String)) (impl : String) : String × Str
   | some calls =>
     let scn := getS kv "scn"
     let n := (getN? kv "n").getD 1
-    let shot := shootGrpcScenario scn (calls.map fun c => { tag := c.tag, outcome := c.outcome })
-    let one := shot.reports.map fun s => fmtSample false s "nil"
+    let shots := allShots calls n false
+    let line := shots.flatMap fun steps => (shootGrpcScenario scn steps).reports.map fun s => fmtSample false s "nil"
     let ikv := parseKV impl
     match parseSamples false (getS ikv "s") with
-    | none => (fmtLine "ok" (replicate n one), s!"fail:crash:unparsable observation {impl.take 120}")
+    | none => (fmtLine "ok" line, s!"fail:crash:unparsable observation {impl.take 120}")
     | some obs =>
       let res := getS ikv "res"
       let v := if res != "ok" then s!"fail:run:{res}"
-               else Spec.C10.judgeGrpc (replicate n (executedCalls scn calls)) (obs.map ObsS.toObs)
-      (fmtLine "ok" (replicate n one), v)
+               else Spec.C10.judgeGrpc (shots.flatMap fun steps => steps.map (grpcStepTruth scn)) (obs.map ObsS.toObs)
+      (fmtLine "ok" line, v)
 
 /-! k=ids, k=errno, k=inv -/
 
